@@ -354,7 +354,9 @@ impl FromMeta for syn::Path {
     fn from_expr(expr: &Expr) -> Result<Self> {
         match expr {
             Expr::Lit(lit) => Self::from_value(&lit.lit),
-            Expr::Path(path) => Ok(path.path.clone()),
+            // A qualified path (`<T as Trait>::name`) is not a `syn::Path`: taking `path.path`
+            // alone would silently drop the `<T as Trait>` part.
+            Expr::Path(path) if path.qself.is_none() => Ok(path.path.clone()),
             Expr::Group(group) => Self::from_expr(&group.expr), // see FromMeta::from_expr
             _ => Err(Error::unexpected_expr_type(expr)),
         }
@@ -380,7 +382,7 @@ impl FromMeta for syn::Ident {
             // All idents are paths, but not all paths are idents -
             // the get_ident() method does additional validation to
             // make sure the path is actually an ident.
-            Expr::Path(path) => match path.path.get_ident() {
+            Expr::Path(path) if path.qself.is_none() => match path.path.get_ident() {
                 Some(ident) => Ok(ident.clone()),
                 None => Err(Error::unexpected_expr_type(expr)),
             },
